@@ -25,7 +25,12 @@ RULE = ("deterministic boundary corpus (every tie pattern of start/end instants 
         "straight by a read of that bucket (count / by id / limit 1 / metadata), one history in five passing "
         "Event objects a second time and changing held objects in place between calls; every history is run on memory, sqlite (temp file) "
         "and peewee (temp file); non-trivial = a run in which a replace/replace_last/delete/upsert succeeded on "
-        "a bucket holding two or more events")
+        "a bucket holding two or more events.  Round 5: data labels >= 100 = concrete edge values (text with a lone high / lone low "
+        "surrogate, astral, NUL, U+2028 as values and keys; dict / list / str / int subclasses as containers and scalars at every depth) "
+        "as bucket data and event data through every kind of write (deterministic corpus per value, 15 % of the random events), the caller "
+        "changing held data in place at every depth; one bulk insert of 230 events; histories with an UNREAD tail (acknowledged single "
+        "inserts, bulk inserts, replaces, calls that are rejected / fail inside the engine and that the caller survives, one dump at the end) "
+        "judged by a reference list with ids")
 
 
 # ---------------------------------------------------------------------------
@@ -235,6 +240,110 @@ def first_model_diff(prop, be, univ, run):
     return None
 
 
+def unread_tail_stream(ck, have_driver):
+    """Histories whose tail is NOT read back op by op (round 5).  A read commits on sqlite, so in the streams above nothing
+    is ever pending when a call fails.  Here: set-up with dumps, then single inserts (the id is handed back: the insert is
+    ACKNOWLEDGED), bulk inserts and replaces interleaved with calls that are rejected or fail inside the engine and that
+    the caller survives (a bulk insert / insert / replace_last addressed to a bucket that does not exist - sqlite:
+    IntegrityError out of the INSERT -, replace / delete of dead ids), one dump at the end.  Reference list model with
+    ids: every acknowledged id names its event, replaced events hold the new payload, the remaining events are exactly
+    the bulk-inserted payloads, no id was handed out twice, nothing else changed."""
+    n_quiet = 250 if ck.tier == "quick" else 12000
+    qhists = sh.quiet_histories(ck.rng, n_quiet)
+    qresults = sh.run_impl_batch(qhists)
+    for (sym, univ, qf), r in zip(qhists, qresults):
+        for be in sh.BACKENDS:
+            run = r[be]
+            qa = run["quiet_at"]
+            ck.note_case([be, "unread-tail", run["ops"]], nontrivial=True)
+            ck.count(f"{be}:unread-tail-histories")
+            if qa == 0:
+                continue
+            start = run["steps"][qa - 1][1:]
+            byid = {b: (None if v == [] else {w[0][0]: tuple(w[1:]) for w in v[0][1]}) for b, v in zip(univ, start)}
+            meta0 = {b: (None if v == [] else v[0][0]) for b, v in zip(univ, start)}
+            anon = {b: [] for b in univ}
+            survived, bad = [], None
+            for op, step in zip(run["ops"][qa:], run["steps"][qa:]):
+                res, code = step[0], op[0]
+                b = None if code == 3 else op[1]
+                ck.count(f"{be}:unread:{sh.OPNAME[code]}:" + ("ok" if res[0] == 0 else sh.ERRNAME.get(res[1], "err")))
+                live = byid.get(b)
+                if res[0] != 0:
+                    survived.append(f"{sh.describe(op)} -> {sh.ERRNAME.get(res[1], res[1])}")
+                    if live is not None and (code == 5 and op[2][0] == [] or code == 6 and all(e[0] == [] for e in op[2])
+                                             or code == 7 and op[2] in live):
+                        bad = f"a well-formed {sh.OPNAME[code]} was rejected with {sh.ERRNAME.get(res[1], res[1])}"
+                        break
+                    continue
+                if live is None:
+                    continue
+                if code == 5 and op[2][0] == []:
+                    out = res[1]
+                    i = out[1][0][0][0] if out[0] == 1 and out[1] and out[1][0][0] else None
+                    if i is None:
+                        bad = f"insert_one returned {out}"
+                        break
+                    if i in live:
+                        bad = (f"insert handed out id {i}, which names a live event of bucket {b} (an earlier insert of the unread "
+                               f"tail was acknowledged with it, or it was live before); calls the caller survived in between: {survived[-3:]}")
+                        break
+                    live[i] = tuple(op[2][1:])
+                elif code == 6:
+                    anon[b].extend(tuple(e[1:]) for e in op[2] if e[0] == [])
+                elif code == 7 and op[2] in live:
+                    live[op[2]] = tuple(op[3][1:])
+            if bad is None:
+                for b, v in zip(univ, run["final"]):
+                    got = None if v == [] else {w[0][0]: tuple(w[1:]) for w in v[0][1]}
+                    gm = None if v == [] else v[0][0]
+                    exp = byid[b]
+                    if (got is None) != (exp is None) or gm != meta0[b]:
+                        bad = f"bucket {b}: existence / metadata changed in the unread tail ({meta0[b]} -> {gm})"
+                        break
+                    if exp is None:
+                        continue
+                    if v != [] and len(got) != len(v[0][1]):
+                        bad = f"an id names two live events of bucket {b}: {v[0][1]}"
+                        break
+                    lost = sorted(i for i in exp if i not in got)
+                    if lost:
+                        bad = (f"bucket {b}: the events with ids {lost[:5]} are gone - their inserts had returned these ids (or they were "
+                               f"listed before the unread tail) and nothing deleted them; calls the caller survived in between: {survived[:4]}")
+                        break
+                    wrong = sorted(i for i in exp if got[i] != exp[i])
+                    if wrong:
+                        bad = f"bucket {b}: event {wrong[0]} holds {got[wrong[0]]}, the reference list holds {exp[wrong[0]]}"
+                        break
+                    rest = sorted(p for i, p in got.items() if i not in exp)
+                    if rest != sorted(anon[b]):
+                        bad = f"bucket {b}: besides the events known by id it holds {rest[:6]}, the bulk inserts of the unread tail added {sorted(anon[b])[:6]}"
+                        break
+            if bad:
+                ck.failing_input(f"C02:{be}:unread-tail:{bad.split(':')[0][:50]}",
+                                 f"{be}: after {len(run['ops']) - qa} ops that were not read back: {bad}",
+                                 {"backend": be, "history": [sh.describe(o) for o in run["ops"]], "wire_ops": run["ops"],
+                                  "universe": univ, "unread_from_op": qa, "results": [st[0] for st in run["steps"]],
+                                  "final": run["final"],
+                                  "how": "harness.store_hist.run_history(backend, ops, universe, tmpdir, 0, quiet_from=unread_from_op): no "
+                                         "read between the ops from unread_from_op on, one dump at the end; SqliteStorage with the default "
+                                         "enable_lazy_commit=True"})
+    if have_driver:
+        flat = [(be, h[1], r[be]["ops"], r[be]["layer"]) for h, r in zip(qhists, qresults) for be in sh.BACKENDS]
+        model = sh.run_model_batch("C02", flat)
+        k = 0
+        for h, r in zip(qhists, qresults):
+            for be in sh.BACKENDS:
+                d = sh.first_difference(model[k], r[be])
+                k += 1
+                if d is not None:
+                    j, ms, is_ = d
+                    ck.disagreement(be, f"op {j} {sh.describe(r[be]['ops'][j]) if j >= 0 else ''}: model and {be} differ (history with an unread tail)",
+                                    {"backend": be, "history": [sh.describe(o) for o in r[be]["ops"][:j + 1]],
+                                     "wire_ops": r[be]["ops"][:j + 1], "universe": h[1], "unread_from_op": r[be]["quiet_at"],
+                                     "model": ms, "impl": is_})
+
+
 def main(argv=None):
     ck = Check("C02", argv)
     common.setup_impl_env()
@@ -248,7 +357,7 @@ def main(argv=None):
     n_random = 900 if ck.tier == "quick" else 45000
     hists = [(sym, univ, None, layer) for layer in sh.LAYERS
              for sym, univ in sh.boundary_histories() + sh.bulk_boundary_histories() + sh.read_write_read_histories()
-             + sh.touch_histories()]
+             + sh.touch_histories() + sh.edge_data_histories()]
     for i in range(n_random):
         # reuse: Event objects passed a second time, and changed in place by the caller between calls
         sym, univ = sh.gen_history(ck.rng, malformed=False, reuse=0.3 if i % 5 == 4 else 0.0)
@@ -355,7 +464,13 @@ def main(argv=None):
                                          "wire_ops": r[be]["ops"][:j + 1], "universe": univ,
                                          "object_reuse": r[be]["objs"][:j + 1], "model": ms, "impl": is_})
                         break
+    # --- histories with an unread tail: acknowledged writes, calls that fail and that the caller survives, one dump at the end
+    unread_tail_stream(ck, have_driver)
+
     ck.assumptions += [
+        "data labels >= 100 stand for concrete edge values (harness/store_hist.py RICH: lone surrogates, astral code points, NUL, "
+        "U+2028, OrderedDict / defaultdict / list / str / int subclasses at every depth); a value that is read back != or with another "
+        "JSON text gets the negative label, which no model produces",
         "strings/data enter the models as labels (0 = the falsy value of its kind); the time codec is the identity "
         "in these models (C01 proves the codecs)",
         "SQLite returns rows of equal timestamp in ascending rowid order for peewee's ORDER BY timestamp DESC "
